@@ -423,14 +423,20 @@ func lruInterleavings(c *mc.Ctx) {
 						}
 					}
 				}
-				n, u := exploreLRU(c, w, cp, prog, outcomes, false)
+				n, u, tl := exploreLRU(c, w, cp, prog, outcomes, 0)
 				schedules += n
 				c.Rep.Programs++
-				if u > 0 {
+				if tl > 0 {
+					// the cache uses TryLock: a failed attempt needs the holder preempted inside its critical
+					// section - statement-level points everywhere (preemption bound 2)
+					unprot++
+					n2, _, _ := exploreLRU(c, w, cp, prog, outcomes, 2)
+					schedules += n2
+				} else if u > 0 {
 					// some statement touched the cache outside a critical section: explore statement-level
 					// interleavings too (preemption bound 2)
 					unprot++
-					n2, _ := exploreLRU(c, w, cp, prog, outcomes, true)
+					n2, _, _ := exploreLRU(c, w, cp, prog, outcomes, 1)
 					schedules += n2
 				}
 				w.Eval(fmt.Sprintf("lru-interleave/T%dx%d/cap%d/collide=%v", sh.threads, sh.ops, cp, collide), collide)
@@ -457,10 +463,15 @@ func lruInterleavings(c *mc.Ctx) {
 	}
 }
 
-func exploreLRU(c *mc.Ctx, w *mc.W, cp int, prog [][]op, outcomes map[string]bool, allSteps bool) (int64, int) {
+// exploreLRU explores the schedules of one program.  mode 0: points at lock operations; 1: also at every statement
+// outside critical sections (preemption bound 2); 2: also at every statement INSIDE critical sections (bound 2) - used
+// when the code calls TryLock, whose failure is only reachable while the holder is preempted.  Returns executions, the
+// number of unprotected steps and the number of TryLock calls seen.
+func exploreLRU(c *mc.Ctx, w *mc.W, cp int, prog [][]op, outcomes map[string]bool, mode int) (int64, int, int) {
+	allSteps := mode >= 1
 	var real cache.Cache
 	var recs []rec
-	unprot := 0
+	unprot, trylocks := 0, 0
 	runOnce := func(prefix []int) *sched.Exec {
 		real = cache.NewLRUCache(cp)
 		recs = recs[:0]
@@ -477,7 +488,7 @@ func exploreLRU(c *mc.Ctx, w *mc.W, cp int, prog [][]op, outcomes map[string]boo
 				}
 			}
 		}
-		return sched.Run(prefix, allSteps, bodies)
+		return sched.RunOpts(prefix, allSteps, mode >= 2, bodies)
 	}
 	observe := func(e *sched.Exec) string {
 		ord, pr := realState(real)
@@ -501,6 +512,9 @@ func exploreLRU(c *mc.Ctx, w *mc.W, cp int, prog [][]op, outcomes map[string]boo
 	st := sched.Explore(bound, 2_000_000, runOnce, func(e *sched.Exec) bool {
 		if e.UnprotectedSteps > unprot {
 			unprot = e.UnprotectedSteps
+		}
+		if e.TryLocks > trylocks {
+			trylocks = e.TryLocks
 		}
 		if e.Diverged {
 			c.Broken("schedule replay diverged (nondeterminism in the harness)")
@@ -549,7 +563,7 @@ func exploreLRU(c *mc.Ctx, w *mc.W, cp int, prog [][]op, outcomes map[string]boo
 	if st.Capped {
 		c.Cap(fmt.Sprintf("schedule cap hit for program %v", prog))
 	}
-	return st.Executions, unprot
+	return st.Executions, unprot, trylocks
 }
 
 // ---- (c) interleavings on the caching verifier ------------------------------
@@ -627,130 +641,155 @@ func verifierInterleavings(c *mc.Ctx) {
 	for _, o := range alphabet {
 		expect[o] = plain(o)
 	}
-	shapes := []shape{{2, 1}, {2, 2}, {3, 1}}
-	for _, sh := range shapes {
-		for _, cp := range []int{1, 2} {
-			sh, cp := sh, cp
-			if !c.Thorough && sh.threads*sh.ops > 3 && cp == 2 {
-				continue
-			}
-			slots := sh.threads * sh.ops
-			nprog := 1
-			for i := 0; i < slots; i++ {
-				nprog *= len(alphabet)
-			}
-			sub := fmt.Sprintf("verifier-interleave/T%dx%d/cap%d", sh.threads, sh.ops, cp)
-			var schedules int64
-			outcomes := map[string]bool{}
-			c.Seq(sub, nprog, func(w *mc.W, pi int) {
-				prog := make([][]vop, sh.threads)
-				x := pi
-				for t := 0; t < sh.threads; t++ {
-					for j := 0; j < sh.ops; j++ {
-						prog[t] = append(prog[t], alphabet[x%len(alphabet)])
-						x /= len(alphabet)
-					}
+	// explore runs every program over alph of the given shapes.  allSteps=false: scheduling points at lock operations,
+	// every schedule; allSteps=true: also at every statement of the (instrumented) cache.go outside critical sections,
+	// preemption bound `bound` - the Verifier's own code between its cache calls (a lock-free memo, a check-then-act on
+	// two atomics) is then interleaved as well.
+	explore := func(prefix string, alphabet []vop, shapes []shape, caps []int, allSteps bool, bound int) {
+		for _, sh := range shapes {
+			for _, cp := range caps {
+				sh, cp := sh, cp
+				if !c.Thorough && sh.threads*sh.ops > 3 && cp == 2 && !allSteps {
+					continue
 				}
-				for t := 1; t < sh.threads; t++ {
-					if fmt.Sprint(prog[t-1]) > fmt.Sprint(prog[t]) {
-						return
-					}
+				slots := sh.threads * sh.ops
+				nprog := 1
+				for i := 0; i < slots; i++ {
+					nprog *= len(alphabet)
 				}
-				var real cache.Cache
-				var foreign int
-				var results [][]bool
-				var bv *ed25519.BatchVerifier
-				var batchWant []bool
-				runOnce := func(prefix []int) *sched.Exec {
-					real = cache.NewLRUCache(cp)
-					foreign = 0
-					v := cache.NewVerifier(&checkedCache{real, &foreign})
-					results = make([][]bool, sh.threads)
-					bv = ed25519.NewBatchVerifier()
-					batchWant = nil
-					bodies := make([]func(e *sched.Exec), sh.threads)
-					for t := range prog {
-						t := t
-						results[t] = make([]bool, len(prog[t]))
-						bodies[t] = func(e *sched.Exec) {
-							for j, o := range prog[t] {
-								switch o.kind {
-								case 0:
-									results[t][j] = v.VerifyWithOptions(keys[o.k][:], msg, sigs[o.k], opts)
-								case 1:
-									results[t][j] = v.VerifyWithOptions(keys[o.k][:], msg, bad[o.k], opts)
-								case 2:
-									v.AddPublicKey(keys[o.k][:])
-									results[t][j] = true
-								case 3:
-									results[t][j] = v.VerifyWithOptions(badKey, msg, sigs[o.k], opts)
-								case 4:
-									// the batch verifier itself is not shared between goroutines by contract: one thread owns it
-									if t == 0 {
-										v.AddWithOptions(bv, keys[o.k][:], msg, sigs[o.k], opts)
-										batchWant = append(batchWant, true)
-									} else {
+				sub := fmt.Sprintf("%s/T%dx%d/cap%d", prefix, sh.threads, sh.ops, cp)
+				var schedules int64
+				outcomes := map[string]bool{}
+				c.Seq(sub, nprog, func(w *mc.W, pi int) {
+					prog := make([][]vop, sh.threads)
+					x := pi
+					for t := 0; t < sh.threads; t++ {
+						for j := 0; j < sh.ops; j++ {
+							prog[t] = append(prog[t], alphabet[x%len(alphabet)])
+							x /= len(alphabet)
+						}
+					}
+					for t := 1; t < sh.threads; t++ {
+						if fmt.Sprint(prog[t-1]) > fmt.Sprint(prog[t]) {
+							return
+						}
+					}
+					var real cache.Cache
+					var foreign int
+					var results [][]bool
+					var bv *ed25519.BatchVerifier
+					var batchWant []bool
+					runOnce := func(prefix []int) *sched.Exec {
+						real = cache.NewLRUCache(cp)
+						foreign = 0
+						v := cache.NewVerifier(&checkedCache{real, &foreign})
+						results = make([][]bool, sh.threads)
+						bv = ed25519.NewBatchVerifier()
+						batchWant = nil
+						bodies := make([]func(e *sched.Exec), sh.threads)
+						for t := range prog {
+							t := t
+							results[t] = make([]bool, len(prog[t]))
+							bodies[t] = func(e *sched.Exec) {
+								for j, o := range prog[t] {
+									switch o.kind {
+									case 0:
+										results[t][j] = v.VerifyWithOptions(keys[o.k][:], msg, sigs[o.k], opts)
+									case 1:
+										results[t][j] = v.VerifyWithOptions(keys[o.k][:], msg, bad[o.k], opts)
+									case 2:
 										v.AddPublicKey(keys[o.k][:])
+										results[t][j] = true
+									case 3:
+										results[t][j] = v.VerifyWithOptions(badKey, msg, sigs[o.k], opts)
+									case 4:
+										// the batch verifier itself is not shared between goroutines by contract: one thread owns it
+										if t == 0 {
+											v.AddWithOptions(bv, keys[o.k][:], msg, sigs[o.k], opts)
+											batchWant = append(batchWant, expect[o])
+										} else {
+											v.AddPublicKey(keys[o.k][:])
+										}
+										results[t][j] = expect[o] // (no decision of its own: the batch is checked below)
 									}
-									results[t][j] = true
 								}
 							}
 						}
+						return sched.Run(prefix, allSteps, bodies)
 					}
-					return sched.Run(prefix, false, bodies)
-				}
-				st := sched.Explore(-1, 500_000, runOnce, func(e *sched.Exec) bool {
-					cas := map[string]interface{}{"capacity": cp, "program": fmt.Sprint(prog), "schedule": e.Choices}
-					desc := fmt.Sprintf("cap=%d program=%v schedule=%v", cp, prog, e.Choices)
-					if e.Diverged {
-						c.Broken("verifier schedule replay diverged")
-						return false
-					}
-					if len(e.Panics) > 0 {
-						w.Fail("cache.Verifier/panic-under-interleaving", desc+": "+e.Panics[0], cas)
-						return true
-					}
-					if e.Deadlock {
-						w.Fail("cache.Verifier/deadlock", desc, cas)
-						return true
-					}
-					for t := range prog {
-						for j, o := range prog[t] {
-							if results[t][j] != expect[o] {
-								w.Fail("cache.Verifier/decision", fmt.Sprintf("%s: %v returned %v, plain verification %v", desc, o, results[t][j], expect[o]), cas)
+					st := sched.Explore(bound, 500_000, runOnce, func(e *sched.Exec) bool {
+						cas := map[string]interface{}{"capacity": cp, "program": fmt.Sprint(prog), "schedule": e.Choices}
+						desc := fmt.Sprintf("cap=%d program=%v schedule=%v", cp, prog, e.Choices)
+						if e.Diverged {
+							c.Broken("verifier schedule replay diverged")
+							return false
+						}
+						if len(e.Panics) > 0 {
+							w.Fail("cache.Verifier/panic-under-interleaving", desc+": "+e.Panics[0], cas)
+							return true
+						}
+						if e.Deadlock {
+							w.Fail("cache.Verifier/deadlock", desc, cas)
+							return true
+						}
+						for t := range prog {
+							for j, o := range prog[t] {
+								if results[t][j] != expect[o] {
+									w.Fail("cache.Verifier/decision", fmt.Sprintf("%s: %v returned %v, plain verification %v", desc, o, results[t][j], expect[o]), cas)
+								}
 							}
 						}
-					}
-					if foreign > 0 {
-						w.Fail("cache.Verifier/foreign-expansion", desc+": cache returned another key's expansion", cas)
-					}
-					ord, pr := realState(real)
-					if len(pr) > 0 {
-						w.Fail("lruCache/invariant", desc+": "+strings.Join(pr, "; "), cas)
-					}
-					if len(batchWant) > 0 {
-						all, each := bv.Verify(nil)
-						if !all || len(each) != len(batchWant) {
-							w.Fail("cache.Verifier/batch", desc+": batch of valid signatures added through the cache did not verify", cas)
+						if foreign > 0 {
+							w.Fail("cache.Verifier/foreign-expansion", desc+": cache returned another key's expansion", cas)
 						}
+						ord, pr := realState(real)
+						if len(pr) > 0 {
+							w.Fail("lruCache/invariant", desc+": "+strings.Join(pr, "; "), cas)
+						}
+						if len(batchWant) > 0 {
+							all, each := bv.Verify(nil)
+							wantAll := true
+							for _, b := range batchWant {
+								wantAll = wantAll && b
+							}
+							if all != wantAll || fmt.Sprint(each) != fmt.Sprint(batchWant) {
+								w.Fail("cache.Verifier/batch", fmt.Sprintf("%s: batch filled through the cache: Verify = %v %v, plain verification of the members %v", desc, all, each, batchWant), cas)
+							}
+						}
+						outcomes[fmt.Sprintf("%v|%v|%v", prog, results, ord)] = true
+						return true
+					})
+					if st.Capped {
+						c.Cap(fmt.Sprintf("schedule cap hit for verifier program %v", prog))
 					}
-					outcomes[fmt.Sprintf("%v|%v|%v", prog, results, ord)] = true
-					return true
+					schedules += st.Executions
+					c.Rep.Programs++
+					w.Eval(sub, true)
+					if pi%499 == 0 {
+						w.Sample(map[string]interface{}{"part": "verifier interleavings", "capacity": cp, "program": fmt.Sprint(prog), "schedules": st.Executions})
+					}
 				})
-				if st.Capped {
-					c.Cap(fmt.Sprintf("schedule cap hit for verifier program %v", prog))
-				}
-				schedules += st.Executions
-				c.Rep.Programs++
-				w.Eval(sub, true)
-				if pi%499 == 0 {
-					w.Sample(map[string]interface{}{"part": "verifier interleavings", "capacity": cp, "program": fmt.Sprint(prog), "schedules": st.Executions})
-				}
-			})
-			c.Rep.Schedules += schedules
-			c.Rep.Traces += schedules
-			c.Rep.Transitions += schedules
-			c.Rep.States += int64(len(outcomes))
+				c.Rep.Schedules += schedules
+				c.Rep.Traces += schedules
+				c.Rep.Transitions += schedules
+				c.Rep.States += int64(len(outcomes))
+			}
 		}
+	}
+	explore("verifier-interleave", alphabet, []shape{{2, 1}, {2, 2}, {3, 1}}, []int{1, 2}, false, -1)
+	// statement level: verify / add-key programs over two keys (what a memo in front of the cache can confuse)
+	var small, tiny []vop
+	for _, o := range alphabet {
+		if o.k < 2 && (o.kind == 0 || o.kind == 2) {
+			small = append(small, o)
+		}
+		if o.k < 2 && o.kind == 0 {
+			tiny = append(tiny, o)
+		}
+	}
+	explore("verifier-statements", small, []shape{{2, 1}, {3, 1}}, []int{1, 2}, true, 2)
+	explore("verifier-statements", tiny, []shape{{2, 2}}, []int{1, 2}, true, 2)
+	if c.Thorough {
+		explore("verifier-statements", tiny, []shape{{3, 2}, {2, 3}}, []int{1, 2}, true, 2)
 	}
 }
